@@ -1114,7 +1114,37 @@ impl Runner {
                 Op::Reopen { params, bsb, ro } => {
                     // drop the device (dirty caches are lost, as documented)
                     self.dev = None;
-                    self.ev(json!({"e":"Drop"}));
+                    // modifying calls not followed by a successful flush_meta: an unclean drop
+                    let unflushed = {
+                        let s = self.sink.borrow();
+                        let mut ops: std::collections::HashMap<u64, (String, usize)> = Default::default();
+                        let mut last_flush = 0usize;
+                        let mut mods: Vec<(usize, usize)> = Vec::new(); // (call index, ret index)
+                        for (i, e) in s.ev.iter().enumerate() {
+                            match e["e"].as_str() {
+                                Some("Reset") => {
+                                    ops.clear();
+                                    mods.clear();
+                                    last_flush = i;
+                                }
+                                Some("Call") => {
+                                    ops.insert(e["id"].as_u64().unwrap_or(0), (e["op"].as_str().unwrap_or("").to_string(), i));
+                                }
+                                Some("Ret") => {
+                                    if let Some((op, ci)) = ops.get(&e["id"].as_u64().unwrap_or(0)) {
+                                        if op == "flush" && e["res"] == "ok" {
+                                            last_flush = i;
+                                        } else if matches!(op.as_str(), "write" | "discard" | "alloc" | "free") {
+                                            mods.push((*ci, i));
+                                        }
+                                    }
+                                }
+                                _ => {}
+                            }
+                        }
+                        mods.iter().filter(|(_, ri)| *ri > last_flush).count()
+                    };
+                    self.ev(json!({"e":"Drop","unflushed":unflushed}));
                     let p = params.clone().unwrap_or(self.sc.params.clone());
                     let b = bsb.unwrap_or(self.sc.bsb);
                     if b != self.geom.bsb {
